@@ -47,6 +47,10 @@ type vdbOp struct {
 	Exp json.RawMessage `json:"exp,omitempty"`
 	// PredefRev is given on Reset lines
 	PredefRev int `json:"predef_rev"`
+	// SeqMap is given on Reset lines: abstract sequence number i (1-based) is materialised as the
+	// concrete sequence number SeqMap[i-1] (strictly increasing; chosen to straddle digit counts,
+	// e.g. 2,10,100) for the whole behaviour
+	SeqMap []int `json:"seqmap,omitempty"`
 
 	Mem *vdbRes `json:"mem,omitempty"`
 	Fs  *vdbRes `json:"fs,omitempty"`
@@ -67,6 +71,48 @@ type vdbRes struct {
 	Upd  bool     `json:"upd"`
 	Many []vdbHit `json:"many"`
 	Msg  string   `json:"msg,omitempty"`
+}
+
+// order-preserving materialisation of abstract sequence numbers (see vdbOp.SeqMap)
+var vdbSeqMap []int
+
+func vdbConc(n int) int {
+	if n >= 1 && n <= len(vdbSeqMap) {
+		return vdbSeqMap[n-1]
+	}
+	return n
+}
+
+func vdbAbs(c int) int {
+	if len(vdbSeqMap) == 0 {
+		return c
+	}
+	for i, x := range vdbSeqMap {
+		if x == c {
+			return i + 1
+		}
+	}
+	return -1000 - c // not a materialised number: shows up as a wrong identity
+}
+
+// vdbAfter materialises the `after` argument of FindSequence: -1 stays -1; abstract a >= 1 becomes the
+// concrete number of a or, on odd steps and when there is a gap, a value strictly between a and a+1;
+// 0 becomes 0 or a value just below the first member.
+func vdbAfter(after, step int) int {
+	if after < 0 || len(vdbSeqMap) == 0 {
+		return after
+	}
+	if after == 0 {
+		if step%2 == 1 && vdbConc(1) > 1 {
+			return vdbConc(1) - 1
+		}
+		return 0
+	}
+	c := vdbConc(after)
+	if step%2 == 1 && (after >= len(vdbSeqMap) || vdbConc(after+1) > c+1) {
+		return c + 1
+	}
+	return c
 }
 
 type vdbWorld struct {
@@ -90,7 +136,7 @@ func (w *vdbWorld) typeOf(id vdbID) *asserts.AssertionType {
 // trusted root key. Formats above the max supported one are signed under a temporarily raised
 // MaxSupportedFormat (the production signer refuses them otherwise).
 func (w *vdbWorld) assertion(id vdbID, rev, format int) asserts.Assertion {
-	ck := fmt.Sprintf("%s/%s/%d/%d/%d", id.T, id.K, id.N, rev, format)
+	ck := fmt.Sprintf("%s/%s/%d/%d/%d", id.T, id.K, vdbConc(id.N), rev, format)
 	if a, ok := w.cache[ck]; ok {
 		return a
 	}
@@ -108,7 +154,7 @@ func (w *vdbWorld) assertion(id vdbID, rev, format int) asserts.Assertion {
 		hdrs["primary-key"] = id.K
 	case "seq":
 		hdrs["n"] = id.K
-		hdrs["sequence"] = strconv.Itoa(id.N)
+		hdrs["sequence"] = strconv.Itoa(vdbConc(id.N))
 	case "trusted":
 		hdrs["account-id"] = id.K
 		hdrs["display-name"] = "Canonical"
@@ -132,7 +178,7 @@ func (w *vdbWorld) headers(id vdbID) map[string]string {
 	case "plain", "predef":
 		return map[string]string{"primary-key": id.K}
 	case "seq":
-		return map[string]string{"n": id.K, "sequence": strconv.Itoa(id.N)}
+		return map[string]string{"n": id.K, "sequence": strconv.Itoa(vdbConc(id.N))}
 	case "trusted":
 		return map[string]string{"account-id": id.K}
 	}
@@ -149,7 +195,7 @@ func vdbIDOf(a asserts.Assertion) vdbID {
 		}
 		return vdbID{T: "plain", K: k}
 	case asserts.TestOnlySeqType:
-		return vdbID{T: "seq", K: a.HeaderString("n"), N: a.(asserts.SequenceMember).Sequence()}
+		return vdbID{T: "seq", K: a.HeaderString("n"), N: vdbAbs(a.(asserts.SequenceMember).Sequence())}
 	case asserts.AccountType:
 		return vdbID{T: "trusted", K: a.HeaderString("account-id")}
 	}
@@ -261,7 +307,7 @@ func (w *vdbWorld) apply(db *asserts.Database, op *vdbOp) *vdbRes {
 		})
 		return res
 	case "FindSequence":
-		a, err := db.FindSequence(asserts.TestOnlySeqType, map[string]string{"n": op.Key}, op.After, op.Mf)
+		a, err := db.FindSequence(asserts.TestOnlySeqType, map[string]string{"n": op.Key}, vdbAfter(op.After, op.I), op.Mf)
 		if err != nil {
 			return vdbErr(err)
 		}
@@ -327,6 +373,7 @@ func TestVerifAssertDB(t *testing.T) {
 			if err != nil {
 				t.Fatalf("OpenFSBackstore: %v", err)
 			}
+			vdbSeqMap = op.SeqMap
 			memDB = w.open(asserts.NewMemoryBackstore(), op.PredefRev)
 			fsDB = w.open(fsbs, op.PredefRev)
 			ncases++
